@@ -12,6 +12,12 @@
          from start+1; reads that omit the lower term rely on the zero-fill of all
          buffers over range(0, n_samples), which must be present
 
+  C09.d  (Python) dispatch: with criterion 'mselin' every normal path of fit
+         trains the tree and then the per-leaf regressions on the same X, y,
+         sample_weight, and predict returns the per-leaf linear prediction; with
+         'simple' neither happens and predict is the
+         tree's own; fit and predict never write max_depth / min_samples_leaf
+
 NOT decided: that impurities equal the true weighted MSE / least-squares
 residual for every index triple (numerical / inductive) — see DESIGN.md.
 """
@@ -31,6 +37,7 @@ from engine import norm as _norm
 RULES = {
     "C09.a": "Python side: leaf rows/targets/weights co-indexed; one leaf numbering at fit and predict; intercept column position agrees with the Cython criterion",
     "C09.b": "Cython: each _mse call receives the mean and weight computed by _mean on the same index range; left=(start,pos), right=(pos,end)",
+    "C09.d": "dispatch by criterion (path-sensitive evaluation with self.criterion bound to 'mselin' / 'simple'): fit -> tree fit then _fit_reglin on the same data iff 'mselin'; predict -> _predict_reglin iff 'mselin', else the tree's predict; max_depth and min_samples_leaf are written nowhere outside the constructor",
     "C09.c": "Cython fast criterion: prefix-sum reads S[hi-1] - (S[lo-1] if lo > 0 else 0); cumulative fill; zero-fill invariant for reads that omit the lower term",
 }
 
@@ -341,11 +348,94 @@ def check_c(ck, repo):
     ck.verdict("mean[0] = 0.0 if w == 0.0 else m / w" in st and "weight[0] = w" in st, "C09.c", None, "_mean: mean = m / w, weight = w", "weighted mean and weight returned", "the fast criterion's mean is not m / w with weight w", file=FAST, function=f"{cname}._mean", line=fn.lineno)
 
 
+def check_d(ck, repo):
+    from .sem import paths
+    from engine.util import self_attr_stores
+
+    ci = repo.cls(PY, "PiecewiseTreeRegressor")
+    fit, pred = ci.methods.get("fit"), ci.methods.get("predict")
+    if fit is None or pred is None:
+        raise AnalysisError("anchor vanished: PiecewiseTreeRegressor.fit/predict")
+    pX, py_, psw = fit.named_params[1:4]
+    configs = [("'mselin'", ast.Constant("mselin"), True), ("'simple'", ast.Constant("simple"), False)]
+    for label, val, lin in configs:
+        ps = [p for p in paths(fit, {"self.criterion": val}, repo=repo) if not p.raised]
+        if not ps:
+            ck.unknown("C09.d", fit, f"fit with criterion {label}", "no normal path found by the path evaluation")
+            continue
+        bad = None
+        for p in ps:
+            texts = [ast.unparse(c) for c in p.calls]
+            tree = [i for i, c in enumerate(p.calls) if isinstance(c.func, ast.Attribute) and c.func.attr == "fit" and ast.unparse(c.func.value) in ("DecisionTreeRegressor", "super()")]
+            reg = [i for i, c in enumerate(p.calls) if isinstance(c.func, ast.Attribute) and c.func.attr == "_fit_reglin"]
+            where = " and ".join(t if pol else f"not ({t})" for t, pol in p.conds) or "always"
+            if len(tree) != 1:
+                bad = f"when {where}: the tree itself is fitted {len(tree)} times"
+                break
+            tc = p.calls[tree[0]]
+            targs = [ast.unparse(a) for a in tc.args if not (isinstance(a, ast.Name) and a.id == "self")] + [f"{k.arg}={ast.unparse(k.value)}" for k in tc.keywords]
+            if targs[:2] != [pX, py_] or not any(t in (psw, f"sample_weight={psw}") for t in targs[2:]):
+                bad = f"when {where}: the tree is trained on ({', '.join(targs)}), not on the caller's {pX}, {py_}, {psw}"
+                break
+            if lin:
+                if len(reg) != 1 or reg[0] < tree[0]:
+                    bad = f"when {where}: the per-leaf least-squares fit {'is skipped' if not reg else 'does not follow the tree fit exactly once'}: predictions are not the OLS fit of the leaf's rows"
+                    break
+                rc = p.calls[reg[0]]
+                rargs = [ast.unparse(a) for a in rc.args] + [ast.unparse(k.value) for k in rc.keywords]
+                if rargs[:3] != [pX, py_, psw]:
+                    bad = f"when {where}: the per-leaf regressions are fitted on ({', '.join(rargs)}), not on the data the tree was trained on"
+                    break
+            elif reg:
+                bad = f"when {where}: per-leaf regressions are fitted although the criterion is {label}"
+                break
+        ck.verdict(bad is None, "C09.d", fit, f"fit with criterion {label}", "tree fit on the caller's data" + (", then the per-leaf regressions on the same data, on every normal path" if lin else ", no per-leaf regression"), bad or "")
+        ps = [p for p in paths(pred, {"self.criterion": val}, repo=repo) if not p.raised]
+        pXp = pred.named_params[1]
+        bad = None
+        for p in ps:
+            r = p.ret
+            where = " and ".join(t if pol else f"not ({t})" for t, pol in p.conds) or "always"
+            ok = False
+            if isinstance(r, ast.Call) and isinstance(r.func, ast.Attribute):
+                first = [ast.unparse(a) for a in r.args if not (isinstance(a, ast.Name) and a.id == "self")][:1]
+                if lin:
+                    ok = r.func.attr == "_predict_reglin" and ast.unparse(r.func.value) == "self" and first == [pXp]
+                else:
+                    ok = r.func.attr == "predict" and ast.unparse(r.func.value) in ("DecisionTreeRegressor", "super()") and first == [pXp]
+            if not ok:
+                bad = f"when {where}: predict returns `{ast.unparse(r)[:70] if isinstance(r, ast.AST) else r}`, not " + (f"self._predict_reglin({pXp})" if lin else f"the tree's own predict({pXp}) (the leaf mean)")
+                break
+        if not ps:
+            bad = "no normal path"
+        ck.verdict(bad is None, "C09.d", pred, f"predict with criterion {label}", "per-leaf linear prediction" if lin else "the tree's leaf mean", bad or "")
+    # the tree honours max_depth / min_samples_leaf: nothing but the constructor writes them
+    for attr in ("max_depth", "min_samples_leaf"):
+        writes = []
+        for m in ci.methods.values():
+            if m.name in ("__init__", "set_params"):
+                continue
+            for a, st, tgt in self_attr_stores(m.node):
+                if a == attr:
+                    writes.append((m, st))
+            for c in own_nodes(m.node):
+                if isinstance(c, ast.Call) and isinstance(c.func, ast.Attribute) and c.func.attr == "set_params" and any(k.arg == attr for k in c.keywords):
+                    writes.append((m, c))
+                if isinstance(c, ast.Call) and isinstance(c.func, ast.Name) and c.func.id == "setattr" and len(c.args) >= 2 and isinstance(c.args[1], ast.Constant) and c.args[1].value == attr:
+                    writes.append((m, c))
+        if writes:
+            m, st = writes[0]
+            ck.violated("C09.d", m, st, f"self.{attr} is overwritten in {m.name}: the tree is grown with another {attr} than the one the caller configured")
+        else:
+            ck.holds("C09.d", fit, f"self.{attr} is written by the constructor only", "the tree is grown with the configured value")
+
+
 def run(ck):
     repo = ck.repo
     for k, v in RULES.items():
         ck.rule(k, v)
     check_a(ck, repo)
+    check_d(ck, repo)
     try:
         check_b(ck, repo)
         check_c(ck, repo)
@@ -358,6 +448,7 @@ def run(ck):
     ]
     ck.require_count("C09.a", 7, "co-index, mask, betas row, numbering x2, shape, hstack, dot, predict_leaves, Cython constant feature, nbvar")
     ck.require_count("C09.b", 6, "mean ranges x3, mse triples x3, left/right, update/reset/reverse_reset, improvement")
+    ck.require_count("C09.d", 5, "fit and predict under 'mselin' and 'simple'; max_depth, min_samples_leaf")
     ck.require_count("C09.c", 8, "zero-fill, fill, 8 reads with buffer/range checks, _mse, _mean")
 
 
@@ -380,7 +471,16 @@ WITNESSES += [
     {"name": "reglin-small-leaf-constant", "file": _P, "rule": "C09.a", "old": "            ys = ys.copy()\n", "new": "            ys = ys.copy()\n            if xs.shape[0] <= xs.shape[1]:\n                self.betas_[i, :-1] = 0\n                self.betas_[i, -1] = ys.mean()\n                continue\n"},
     {"name": "predict-float32-features", "file": _P, "rule": "C09.a", "old": "        leaves = self.predict_leaves(X)\n        pred = numpy.ones((X.shape[0], 1))\n", "new": "        X = self._validate_X_predict(X, check_input)\n        leaves = self.predict_leaves(X)\n        pred = numpy.ones((X.shape[0], 1))\n"},
 ]
+WITNESSES += [
+    {"name": "fit-reglin-only-when-split", "file": _P, "rule": "C09.d", "old": '        if self.criterion == "mselin":\n            self._fit_reglin(X, y, sample_weight)\n', "new": '        if self.criterion == "mselin" and self.tree_.node_count > 1:\n            self._fit_reglin(X, y, sample_weight)\n'},
+    {"name": "predict-by-hasattr-betas", "file": _P, "rule": "C09.d", "old": '        if self.criterion == "mselin":\n            return self._predict_reglin(X, check_input=check_input)\n', "new": '        if hasattr(self, "betas_"):\n            return self._predict_reglin(X, check_input=check_input)\n'},
+    {"name": "fit-reglin-unweighted", "file": _P, "rule": "C09.d", "old": "            self._fit_reglin(X, y, sample_weight)\n", "new": "            self._fit_reglin(X, y, None)\n"},
+    {"name": "fit-raises-min-samples-leaf", "file": _P, "rule": "C09.d", "old": "        try:\n            DecisionTreeRegressor.fit(", "new": "        self.min_samples_leaf = max(self.min_samples_leaf, X.shape[1] + 2)\n        try:\n            DecisionTreeRegressor.fit("},
+    {"name": "simple-also-fits-reglin", "file": _P, "rule": "C09.d", "old": '        if self.criterion == "mselin":\n            self._fit_reglin(X, y, sample_weight)\n', "new": '        if self.criterion in ("mselin", "simple"):\n            self._fit_reglin(X, y, sample_weight)\n'},
+]
 TWINS = [
+    {"name": "fit-dispatch-on-saved-name", "file": _P, "old": '        if self.criterion == "mselin":\n            self._fit_reglin(X, y, sample_weight)\n', "new": '        if replace == "mselin":\n            self._fit_reglin(X, y, sample_weight)\n'},
+    {"name": "predict-dispatch-inverted", "file": _P, "old": '        if self.criterion == "mselin":\n            return self._predict_reglin(X, check_input=check_input)\n        return DecisionTreeRegressor.predict(self, X, check_input=check_input)\n', "new": '        if self.criterion != "mselin":\n            return DecisionTreeRegressor.predict(self, X, check_input=check_input)\n        return self._predict_reglin(X, check_input=check_input)\n'},
     {"name": "reglin-mask-flipped-eq", "file": _P, "old": "            ind = pred_leaves == i\n", "new": "            ind = i == pred_leaves\n"},
 ]
 MIN_WITNESSES = 8
